@@ -358,11 +358,10 @@ OP(lookup_transparent) {
 OP(insert_node) {
   Ctx c; c.setup(FS_CLS);
   // a node obtained from another set (extract), then offered to this one
-  FS other(c.m.c);
   K v = ndkey();
   bool empty = nd8(1);
   FS::node_type nh;
-  if (!empty) { other.insert(v); nh = other.extract(v); vf_assert(!nh.empty() && nh.value() == v, 3010); }
+  if (!empty) { FS other(c.m.c); other.insert(v); nh = other.extract(v); vf_assert(!nh.empty() && nh.value() == v, 3010); }
   bool was = !empty && c.m.contains(v);
   FS::insert_return_type r = c.s().insert(std::move(nh));
   if (empty) { vf_assert(!r.inserted && r.position == c.s().end() && r.node.empty(), 3011); }
